@@ -1,7 +1,7 @@
 (* C17 -- Valid parameters always yield a schedule; invalid ones fail before any action
    Property theorems only: each proof is one application of a lemma proved in Proofs/, followed by Print Assumptions. *)
 From Coq Require Import ZArith List Bool.
-From CS Require NAdv AllocProofs InvalidProofs RevConv RevBridge4 RevolveRun RevBridge6.
+From CS Require NAdv AllocProofs InvalidProofs RevConv RevBridge4 RevolveRun RevBridge6 DiskRun DiskBridge3 DiskGen PeriodGen.
 From CS Require Import Actions NAdvance Multistage Exec Sched RunFacts Projections BasicInv MultistageRun AllocTotal TLBridge MixBridge.
 Import ListNotations.
 Open Scope Z_scope.
@@ -20,6 +20,14 @@ Theorem C17_revolve_complete : forall (N ram disk uf ub wd rd : Z) (k : nat), 1 
   exists o0 m ls, run_case (PRev RevConv.KRevolve N ram disk uf ub wd rd) (RevBridge4.rev_xparams N ram) (repeat Next k) = Ok (o0, m, ls) /\ mon_ok m /\ no_raise ls.
 Proof. exact RevolveRun.revolve_run. Qed.
 Print Assumptions C17_revolve_complete.
+Theorem C17_disk_revolve_complete : forall (N ram disk uf ub wd rd : Z) (k : nat), 1 <= N -> 1 <= ram ->
+  exists o0 m ls, run_case (PRev RevConv.KDiskRevolve N ram disk uf ub wd rd) (DiskRun.disk_xparams N ram) (repeat Next k) = Ok (o0, m, ls) /\ no_raise ls /\ DiskBridge3.leftover_or_ok m.
+Proof. exact DiskRun.disk_revolve_run. Qed.
+Print Assumptions C17_disk_revolve_complete.
+Theorem C17_periodic_complete : forall (N ram disk uf ub wd rd : Z) (k : nat), 1 <= N -> 1 <= ram ->
+  exists o0 m ls, run_case (PRev RevConv.KPeriodic N ram disk uf ub wd rd) (DiskRun.disk_xparams N ram) (repeat Next k) = Ok (o0, m, ls) /\ no_raise ls /\ DiskBridge3.leftover_or_ok m.
+Proof. exact DiskRun.periodic_run. Qed.
+Print Assumptions C17_periodic_complete.
 Theorem C17_twolevel_complete : forall (N P bs : Z) (bst : storage) (tj : traj), 1 <= N -> 1 <= P -> 0 <= bs -> bst = RAM \/ bst = DISK -> forall k : nat,
   exists o0 m ls, run_case (PTwo P bs bst tj) (ptl N P bs bst) (repeat Next (Z.to_nat (TLBridge.Q N P)) ++ [Fin N] ++ repeat Next (S k)) = Ok (o0, m, ls) /\ mon_ok m /\ no_raise ls.
 Proof. exact twolevel_run. Qed.
@@ -154,7 +162,31 @@ Proof. exact (@RevBridge6.revolve_top_total). Qed.
 Print Assumptions C17_revolve_top_total.
 End M_C17_revolve_top_total.
 
-(* PARTIAL (Revolve family): max_n < 1 or no RAM unit for max_n > 1 is an exception at construction; that valid tuples always yield a complete stream is proved for Revolve (C17_revolve_complete) but not for DiskRevolve, PeriodicDiskRevolve, HRevolve (correspondence + oracle) *)
+(* the DiskRevolve op-list generator (both tables + recursion) never fails on the domain *)
+Module M_C17_disk_revolve_top_total.
+Import DiskGen.
+Theorem C17_disk_revolve_top_total :
+  forall l cm rd wd uf ub : Z,
+         0 <= l ->
+         1 <= cm -> exists ops : list Ops.op, RevSeq.disk_revolve_top l cm rd wd uf ub = Actions.Ok ops.
+Proof. exact (@DiskGen.disk_revolve_top_total). Qed.
+Print Assumptions C17_disk_revolve_top_total.
+End M_C17_disk_revolve_top_total.
+
+(* the PeriodicDiskRevolve op-list generator never fails on the domain, and its period is mxrr *)
+Module M_C17_periodic_top_total.
+Import PeriodGen.
+Theorem C17_periodic_top_total :
+  forall l cm rd wd uf ub : Z,
+         0 <= l ->
+         1 <= cm ->
+         exists ops : list Ops.op,
+           RevSeq.periodic_top l cm rd wd uf ub = Actions.Ok (ops, RevSeq.mxrr cm uf rd wd).
+Proof. exact (@PeriodGen.periodic_top_total). Qed.
+Print Assumptions C17_periodic_top_total.
+End M_C17_periodic_top_total.
+
+(* PARTIAL (Revolve family): max_n < 1 or no RAM unit for max_n > 1 is an exception at construction; that valid tuples always yield a complete stream is proved for Revolve, DiskRevolve, PeriodicDiskRevolve (C17_*_complete) but not for HRevolve (correspondence + oracle) *)
 Module M_C17_revolve_family_rejects_partial.
 Import InvalidProofs.
 Theorem C17_revolve_family_rejects_partial :
